@@ -44,7 +44,10 @@ def gen(ctx):
         H = rng.choice([1, 1, 2])
         hist = [[rng.randrange(k) for _ in range(N)] for _ in range(H)]
         rule = rng.choice(PERMS + PERMS + ["probe:%d" % k, "counter:%d" % k, "short"])
-        yield dict(kind="blk1", hist=hist, b=b, T=rng.randint(1, 6), rule=rule, dtype=rng.choice(["int32", "int64", "uint8"]))
+        c = dict(kind="blk1", hist=hist, b=b, T=rng.randint(1, 6), rule=rule, dtype=rng.choice(["int32", "int64", "uint8"]))
+        if rng.random() < 0.15 and divisible(c):
+            c["nested"] = 1         # the block rule itself runs a block evolution of the same width and dtype
+        yield c
     for _ in range(ctx.n(300, 3000)):
         b0, b1 = rng.choice([1, 2, 3, 3, 4, 5, 6]), rng.choice([1, 2, 2, 3, 4, 5, 6])
         R = b0 * rng.randint(1, max(1, 12 // b0))
@@ -61,6 +64,8 @@ def gen(ctx):
         c = dict(kind="blk2", hist=hist, b=[b0, b1], T=rng.randint(1, 5), rule=rule, dtype=rng.choice(["int32", "int64", "uint8"]))
         if rng.random() < 0.3:
             c["inplace"] = 1
+        if rng.random() < 0.15 and divisible(c):
+            c["nested"] = 1
         yield c
 
 
@@ -79,7 +84,8 @@ def calls_str(log):
 def run(c, rule=None):
     import cellpylib as cpl
     ca = np.array(c["hist"], dtype=c["dtype"])
-    rule = rule or BRule(c["rule"], inplace=bool(c.get("inplace")))
+    nested = dict(shape=ca.shape[1:], dtype=ca.dtype, b=c["b"]) if c.get("nested") else None
+    rule = rule or BRule(c["rule"], inplace=bool(c.get("inplace")), nested=nested)
     try:
         if c["kind"] == "blk1":
             res = cpl.evolve_block(ca, block_size=c["b"], timesteps=c["T"], apply_rule=rule)
